@@ -466,9 +466,9 @@ impl St {
     }
 
     #[cfg(feature = "ext")]
-    fn path_url(&mut self, text: &str, wd: &Option<String>) -> S {
-        // replica of src/path.rs normalize_url_path on Unix: percent-decode, else unchanged
-        let decoded = urlencoding::decode(text).unwrap_or(std::borrow::Cow::Borrowed(text));
+    fn path_url(&mut self, text: &str, wd: &Option<String>, decode: bool) -> S {
+        // replica of src/path.rs normalize_url_path on Unix (the `file:` branch only): percent-decode, else unchanged
+        let decoded = if decode { urlencoding::decode(text).unwrap_or(std::borrow::Cow::Borrowed(text)) } else { std::borrow::Cow::Borrowed(text) };
         let r = match wd {
             Some(d) => VerbatimUrl::from_path(decoded.as_ref(), d),
             None => VerbatimUrl::from_absolute_path(decoded.as_ref()),
@@ -479,7 +479,7 @@ impl St {
         }
     }
     #[cfg(not(feature = "ext"))]
-    fn path_url(&mut self, _text: &str, _wd: &Option<String>) -> S {
+    fn path_url(&mut self, _text: &str, _wd: &Option<String>, _decode: bool) -> S {
         S::a("unavailable")
     }
 
@@ -760,8 +760,18 @@ impl St {
                 _ => S::a("err"),
             },
             "reqrel" => {
-                let a = Requirement::<VerbatimUrl>::from_str(&l[1].string());
-                let b = Requirement::<VerbatimUrl>::from_str(&l[2].string());
+                let origin = |s: Option<&S>| -> Option<pep508_rs::RequirementOrigin> {
+                    match s {
+                        Some(S::L(v)) if !v.is_empty() => match v[0].atom() {
+                            "file" => Some(pep508_rs::RequirementOrigin::File(std::path::PathBuf::from(v[1].string()))),
+                            "project" => Some(pep508_rs::RequirementOrigin::Project(std::path::PathBuf::from(v[1].string()), PackageName::from_str(&v[2].string()).unwrap())),
+                            _ => Some(pep508_rs::RequirementOrigin::Workspace),
+                        },
+                        _ => None,
+                    }
+                };
+                let a = Requirement::<VerbatimUrl>::from_str(&l[1].string()).map(|r| match origin(l.get(3)) { Some(o) => r.with_origin(o), None => r });
+                let b = Requirement::<VerbatimUrl>::from_str(&l[2].string()).map(|r| match origin(l.get(4)) { Some(o) => r.with_origin(o), None => r });
                 match (a, b) {
                     (Ok(a), Ok(b)) => {
                         let h = |t: &Requirement<VerbatimUrl>| {
@@ -795,50 +805,85 @@ impl St {
                 S::tag("ok", vec![S::a(a.verif_raw_id()), S::a(MarkerTree::verif_arena_len())])
             }
             "hammer" => {
-                // (hammer nthreads iters timeout_ms (texts...)) : the main thread computes and/or/and-not of neighbouring markers once; then every
-                // thread repeats the same operations `iters` times over all pairs (starting at different offsets) and counts results that differ
+                // (hammer nthreads iters timeout_ms (texts...) (heavy_a heavy_b)) : the main thread computes, once, and/or/is_disjoint of neighbouring
+                // markers, re-parses of every text and is_disjoint of the heavy pair; then every thread repeats the same operations `iters` times
+                // (thread 0 keeps working on the heavy pair) and counts results that differ from the sequential ones
                 let n = l[1].idx();
                 let iters = l[2].idx();
                 let timeout = l[3].num();
-                let trees: Vec<MarkerTree> = l[4].list().iter().filter_map(|t| MarkerTree::from_str(&t.string()).ok()).collect();
+                let texts: Vec<String> = l[4].list().iter().map(|t| t.string()).filter(|t| MarkerTree::from_str(t).is_ok()).collect();
+                let trees: Vec<MarkerTree> = texts.iter().map(|t| MarkerTree::from_str(t).unwrap()).collect();
+                let heavy: Option<(MarkerTree, MarkerTree)> = if l.len() > 5 && l[5].list().len() == 2 {
+                    match (MarkerTree::from_str(&l[5].list()[0].string()), MarkerTree::from_str(&l[5].list()[1].string())) {
+                        (Ok(a), Ok(b)) => Some((a, b)),
+                        _ => None,
+                    }
+                } else { None };
+                let heavy_expected = heavy.as_ref().map(|(a, b)| a.is_disjoint(b));
                 let k = trees.len();
-                let mut expected: Vec<(MarkerTree, MarkerTree)> = Vec::new();
+                let mut expected: Vec<(MarkerTree, MarkerTree, bool)> = Vec::new();
                 for j in 0..k {
                     let mut x = trees[j].clone();
                     x.and(trees[(j + 1) % k].clone());
                     let mut y = trees[j].clone();
                     y.or(trees[(j + 2) % k].clone());
-                    expected.push((x, y));
+                    let d = trees[j].is_disjoint(&trees[(j + 1) % k]);
+                    expected.push((x, y, d));
                 }
                 let trees = std::sync::Arc::new(trees);
+                let texts = std::sync::Arc::new(texts);
                 let expected = std::sync::Arc::new(expected);
+                let heavy = std::sync::Arc::new(heavy);
                 let (tx, rx) = std::sync::mpsc::channel();
                 let barrier = std::sync::Arc::new(std::sync::Barrier::new(n));
+                let running = std::sync::Arc::new(std::sync::atomic::AtomicUsize::new(n));
                 for t in 0..n {
                     let tx = tx.clone();
+                    let running = running.clone();
                     let trees = trees.clone();
+                    let texts = texts.clone();
                     let expected = expected.clone();
+                    let heavy = heavy.clone();
                     let barrier = barrier.clone();
                     std::thread::spawn(move || {
                         let r = catch_unwind(AssertUnwindSafe(|| {
                             barrier.wait();
                             let mut bad = 0usize;
                             let mut first: Option<(usize, String)> = None;
+                            if t == 0 {
+                                // this thread keeps the interner busy with the large check until the others are done
+                                if let (Some((a, b)), Some(want)) = (heavy.as_ref(), heavy_expected) {
+                                    while running.load(std::sync::atomic::Ordering::Relaxed) > 1 {
+                                        if a.is_disjoint(b) != want {
+                                            bad += 1;
+                                            if first.is_none() { first = Some((usize::MAX, "is_disjoint of the heavy pair".to_string())); }
+                                        }
+                                        // the mutex is not fair: give the other threads a chance to take it
+                                        std::thread::sleep(std::time::Duration::from_micros(300));
+                                    }
+                                    running.fetch_sub(1, std::sync::atomic::Ordering::Relaxed);
+                                    return (bad, first);
+                                }
+                            }
                             for it in 0..iters {
                                 let j = (it + t * 3) % k;
                                 let mut x = trees[j].clone();
                                 x.and(trees[(j + 1) % k].clone());
                                 let mut y = trees[j].clone();
                                 y.or(trees[(j + 2) % k].clone());
-                                if x != expected[j].0 || y != expected[j].1 {
+                                let d = trees[j].is_disjoint(&trees[(j + 1) % k]);
+                                let reparsed_ok = if it % 16 == 0 { MarkerTree::from_str(&texts[j]).ok().as_ref() == Some(&trees[j]) } else { true };
+                                if x != expected[j].0 || y != expected[j].1 || d != expected[j].2 || !reparsed_ok {
                                     bad += 1;
                                     if first.is_none() {
-                                        first = Some((j, format!("{:?} / {:?}", x.try_to_string(), y.try_to_string())));
+                                        first = Some((j, format!("and {:?} / or {:?} / disjoint {} (sequential {}) / re-parse equal {}", x.try_to_string(), y.try_to_string(), d, expected[j].2, reparsed_ok)));
                                     }
                                 }
                             }
+                            running.fetch_sub(1, std::sync::atomic::Ordering::Relaxed);
                             (bad, first)
                         }));
+                        if r.is_err() { running.fetch_sub(1, std::sync::atomic::Ordering::Relaxed); }
                         let _ = tx.send(r.ok());
                     });
                 }
@@ -863,6 +908,15 @@ impl St {
                     return S::tag("panicked", vec![S::a(panicked)]);
                 }
                 S::tag("ok", vec![S::a(bad), S::a(n * iters), match first { Some((j, t)) => S::l(vec![S::a(j), S::str(&t)]), None => S::a("none") }])
+            }
+            "bulk" => {
+                // (bulk n) : n distinct conjunctions, to fill caches and tables
+                let n = l[1].idx();
+                for i in 0..n {
+                    let t = format!("extra == 'bulk-a{i}' and extra == 'bulk-b{i}'");
+                    let _ = MarkerTree::from_str(&t);
+                }
+                S::tag("ok", vec![S::a(MarkerTree::verif_arena_len())])
             }
             "stress" => {
                 // (stress nthreads timeout_ms (texts...)) : every thread parses all texts (rotated), combines neighbours,
@@ -1051,7 +1105,8 @@ impl St {
                         Ok(u) => S::tag("ok", vec![S::str(&u.to_string())]),
                         Err(e) => S::tag("err", vec![S::str(&e.to_string())]),
                     },
-                    _ => self.path_url(&text, &wd),
+                    "P" => self.path_url(&text, &wd, false),
+                    _ => self.path_url(&text, &wd, true),
                 }
             }
             "expandenv" => S::tag("ok", vec![S::str(&pep508_rs::expand_env_vars(&l[1].string()))]),
